@@ -7,12 +7,14 @@ import (
 	"fmt"
 	"net/http"
 	"net/http/httptest"
+	"sort"
 	"strings"
 	"testing"
 
 	"github.com/gin-gonic/gin"
 	"github.com/google/uuid"
 
+	"github.com/bluenviron/mediamtx/internal/conf"
 	"github.com/bluenviron/mediamtx/internal/defs"
 	"github.com/bluenviron/mediamtx/internal/logger"
 	"github.com/bluenviron/mediamtx/internal/verifutil"
@@ -36,9 +38,61 @@ func (pm *verifC44PM) APIForwardDestGet(string, uuid.UUID) (*defs.APIForwardDest
 	return nil, fmt.Errorf("unused")
 }
 
-type verifC44Parent struct{ apiParent }
+type verifC44Parent struct {
+	apiParent
+	c *conf.Conf
+}
 
 func (verifC44Parent) Log(logger.Level, string, ...any) {}
+func (p verifC44Parent) APIConfigSnapshot() *conf.Conf { return p.c }
+
+// GET /v3/config/paths/list walked page by page, several times, on one API instance: within every walk the pages
+// 0..pageCount-1 must contain every configured path exactly once (the list they slice must be the same list on every
+// request, whatever order the configuration map is iterated in)
+func verifC44ConfWalks(ipp string, walks int, names []string) string {
+	gin.SetMode(gin.ReleaseMode)
+	c := &conf.Conf{Paths: map[string]*conf.Path{}}
+	for _, n := range names {
+		c.Paths[n] = &conf.Path{Name: n}
+	}
+	a := &API{Parent: verifC44Parent{c: c}}
+	for w := 0; w < walks; w++ {
+		seen := map[string]int{}
+		pc := 1
+		for p := 0; p < pc; p++ {
+			rec := httptest.NewRecorder()
+			ctx, _ := gin.CreateTestContext(rec)
+			ctx.Request = httptest.NewRequest(http.MethodGet, fmt.Sprintf("/v3/config/paths/list?itemsPerPage=%s&page=%d", ipp, p), nil)
+			a.onConfigPathsList(ctx)
+			if rec.Code != http.StatusOK {
+				return fmt.Sprintf("walk %d page %d: status %d", w, p, rec.Code)
+			}
+			var res struct {
+				ItemCount int `json:"itemCount"`
+				PageCount int `json:"pageCount"`
+				Items     []struct {
+					Name string `json:"name"`
+				} `json:"items"`
+			}
+			if err := json.Unmarshal(rec.Body.Bytes(), &res); err != nil {
+				return "badjson"
+			}
+			if res.ItemCount != len(names) {
+				return fmt.Sprintf("walk %d page %d: itemCount %d", w, p, res.ItemCount)
+			}
+			pc = res.PageCount
+			for _, it := range res.Items {
+				seen[it.Name]++
+			}
+		}
+		for _, n := range names {
+			if seen[n] != 1 {
+				return fmt.Sprintf("walk %d: path %s appears %d times in pages 0..%d", w, n, seen[n], pc-1)
+			}
+		}
+	}
+	return "ok"
+}
 
 func verifC44Handler(n int, ipp string, pages []string) string {
 	gin.SetMode(gin.ReleaseMode)
@@ -107,6 +161,8 @@ func verifC44Exec(op string) string {
 			}
 		}
 		return fmt.Sprintf("ok %d %s", pc, verifC44Span(items))
+	case "hlc":
+		return verifC44ConfWalks(f[1], verifutil.Atoi(f[2]), strings.Split(f[3], ","))
 	case "hl":
 		return verifC44Handler(verifutil.Atoi(f[1]), f[2], strings.Split(f[3], ","))
 	case "all":
@@ -166,6 +222,27 @@ func verifC44Gen(r *verifutil.Rand, i int, thorough bool) []string {
 	grid := 41 * 12
 	if i < grid {
 		return []string{fmt.Sprintf("all %d %d", i/12, i%12+1)}
+	}
+	if r.Intn(40) == 0 {
+		// configuration paths list: names that collate equal under a "friendlier" order (letter case, digits) must still
+		// come out in ONE fixed order on every request
+		base := r.Pick("cam", "Cam", "live", "a", "x9")
+		set := map[string]bool{}
+		for len(set) < 3+r.Intn(5) {
+			b := []byte(base)
+			for j := range b {
+				if r.Bool() && b[j] >= 'a' && b[j] <= 'z' {
+					b[j] -= 32
+				}
+			}
+			set[string(b)+r.Pick("", "", "1", "01", "_")] = true
+		}
+		names := []string{"alpha", "zeta"}
+		for n := range set {
+			names = append(names, n)
+		}
+		sort.Strings(names)
+		return []string{fmt.Sprintf("hlc %d %d %s", 1+r.Intn(3), 12, strings.Join(names, ","))}
 	}
 	if r.Intn(6) == 0 {
 		// through the HTTP handler, several requests in a row on one API instance: a walk over all pages (and two past
